@@ -226,6 +226,11 @@ Proof.
   rewrite run_refines_spec, (spec_run_clean ss) by assumption. reflexivity.
 Qed.
 
+(* the same model with the two departures switched off (= the code after the proposed patches,
+   findings/C20-*.md) satisfies the property on EVERY history, no side condition *)
+Theorem ideal_model_meets_spec i : prop_code i (enc_obs (run ideal i)) = 0.
+Proof. apply prop_code_spec. unfold C20_holds. rewrite run_refines_spec. reflexivity. Qed.
+
 (* and in every case (clean or not) the model is one of the four semantics [finding_code] knows *)
 Theorem model_explained i :
   prop_code i (enc_obs (run faithful i)) = 0 \/ finding_code i (enc_obs (run faithful i)) <> 0.
